@@ -1,7 +1,7 @@
 #!/usr/bin/env python3
 """Runs every hand mutant (mutants/*.diff) and every seeded change (seeded/<id>/patch.diff)
 against the check of its property and records whether it is caught.
-usage: tools/sensitivity.py [seconds-per-run] [only-prefix]
+usage: tools/sensitivity.py [seconds-per-run | quick] [only-prefix]   (quick = the registered quick tier, fixed work)
 Writes evidence/sensitivity.json. /repo must be clean; every patch is undone right after its run."""
 import os, sys, json, subprocess, glob, re, time
 ROOT = os.path.dirname(os.path.dirname(os.path.abspath(__file__)))
@@ -28,7 +28,7 @@ for name, prop, patch, origin in items:
         continue
     t = time.time()
     try:
-        c = subprocess.run(['python3', os.path.join(ROOT, 'tools', 'check.py'), prop, '--time', secs],
+        c = subprocess.run(['python3', os.path.join(ROOT, 'tools', 'check.py'), prop] + ([] if secs == 'quick' else ['--time', secs]),
                            capture_output=True, text=True, env=dict(os.environ, VERIF_FAST='1'))
     finally:
         subprocess.run(['git', '-C', REPO, 'checkout', '--', '.'])
@@ -43,5 +43,5 @@ out = os.path.join(ROOT, 'evidence', 'sensitivity.json')
 old = []
 if only and os.path.exists(out):
     old = [e for e in json.load(open(out))['changes'] if not e['change'].lower().startswith(only.lower())]
-json.dump({'budget_s_per_change': float(secs), 'changes': sorted(old + res, key=lambda e: e['change'])}, open(out, 'w'), indent=1)
+json.dump({'budget_s_per_change': (secs if secs == 'quick' else float(secs)), 'changes': sorted(old + res, key=lambda e: e['change'])}, open(out, 'w'), indent=1)
 print('caught %d of %d' % (sum(1 for e in res if e.get('caught')), len(res)))
